@@ -293,6 +293,11 @@ def faults(text, rng, every_char, limit):
     after_end = [e for _, e, t in toks if t.startswith("</") and clear(e) and clear(e - 1)]
     for b in (after_end if len(after_end) <= limit // 4 else rng.sample(after_end, limit // 4)):
         yield text[:b] + " junk " + text[b:], {"kind": "stray-text", "at": b}
+    # ... and text right behind a CDATA section whose element has no end tag of its own (the section IS the data; what follows it
+    # up to the next tag is stray text like any other)
+    for a, z in cspans[:6]:
+        if z <= len(text) and text[z - 3:z] == "]]>" and not text.startswith("</", z):
+            yield text[:z] + "stray" + text[z:], {"kind": "stray-text", "at": z, "after": "cdata-without-end-tag"}
     yield text + "<ZZ><Q>1</Q></ZZ>", {"kind": "second-root"}
     yield text + "<ZZ>1", {"kind": "second-root"}
     yield "<ZZ></ZZ>" + text, {"kind": "second-root"}
